@@ -13,7 +13,7 @@ from contracts import prop
 
 MC = "behave.model_core:"
 M = "behave.model:"
-P = ["C09"]
+P = ["C09", "C12", "C01"]     # selection decides which hooks run (C12) and what the verdict is about (C01)
 
 oracle("param_tag", ["val"], "bool")      # ScenarioOutlineBuilder.is_parametrized_tag(tag): the tag contains a <placeholder>
 contract("abs:is_parametrized_tag", trusted=True, pos_params=["tag"], pure=True, result="bool",
